@@ -405,11 +405,11 @@ class Oracle(object):
     i, pos, c = trig
     for (j, q, kind, col) in self.schema:
       if (j, q) < (i, pos):
-        if kind == 'DRename' and col == c:
-          return True
         if c in SRC and col in (c, SRC[c]):
-          return True
-    return False
+          return 'formula-edges-cleared'     # the formula column's own edges were cleared (ALL_ROWS)
+        if c not in SRC and kind == 'DRename' and col == c:
+          return 'stale-edge'                # the trigger edge names the old column id
+    return None
 
 
 def judge(cfg, res):
@@ -442,7 +442,11 @@ def judge(cfg, res):
                       'value: %r)' % (r, cfg['when'], lc)))
   for r in sorted(set(must) - fired):
     trig = o.triggers.get(r, [])
-    kind = 'stale-edge' if trig and all(o.stale_for(t) for t in trig) else 'missing-recalculation'
+    why = set(o.stale_for(t) for t in trig)
+    if not trig or None in why:
+      kind = 'missing-recalculation'
+    else:
+      kind = 'stale-edge' if 'stale-edge' in why else 'formula-edges-cleared'
     out.append((kind, 'row %d: trigger formula NOT evaluated although the property requires it (%s, triggers %r)'
                 % (r, cfg['when'], trig)))
   for r in sorted(rows):
@@ -568,15 +572,63 @@ def coq_case(cfg, results, verdicts):
   return '(%s, %s)' % (coq_cfg(cfg), core.coq_list(obs))
 
 
+# Small-scope enumeration (thorough tier): on the table {1: A=1 B=0, 2: A=2 B=2} every bundle of one or two
+# actions from this alphabet, for each of the 7 configurations of ENUM_CFGS.
+ALPHABET = [
+  ['add', [None], [A], [[3]]],                       # new record without a trigger value
+  ['add', [None], [A, TR], [[3, 50]]],               # ... with one
+  ['upd', [1], [A], [[9]]],                          # data dependency changes
+  ['upd', [1, 2], [A], [[1], [7]]],                  # bulk: row 1 same value, row 2 changes
+  ['upd', [1], [B], [[5]]],                          # source of F changes, F changes (0 -> 2)
+  ['upd', [1], [B], [[1]]],                          # source of F changes, F recomputed to the same value
+  ['upd', [1], [TR], [[77]]],                        # explicit trigger value
+  ['upd', [1], [A, TR], [[9, 77]]],                  # explicit value and dependency change
+  ['upd', [1], [A, TR], [[9, 1]]],                   # ... with the value the cell has (after the first bundle)
+  ['upd', [1], [C], [[4]]],                          # neither a dependency nor a source of F
+  ['rem', [1]],
+  ['ren', A], ['ren', B], ['ren', F], ['mod', A], ['mod', B], ['mod', F],
+  ['undo'],
+]
+ENUM_FIRST = [['add', [None, None], [A, B], [[1, 0], [2, 2]]]]
+ENUM_CFGS = ([{'when': 'DEFAULT', 'deps': d} for d in ([], [A], [F], [A, TR])] +
+             [{'when': 'NEVER', 'deps': [A]}, {'when': 'MANUAL_UPDATES', 'deps': []},
+              {'when': 'MANUAL_UPDATES', 'deps': [A, TR]}])
+
+
+def enumerated(ctx):
+  out = []
+  for cfg in ENUM_CFGS:
+    for i, a in enumerate(ALPHABET):
+      for b in [None] + list(ALPHABET):
+        second = [a] if b is None else [a, b]
+        if b is not None and b[0] == 'undo':
+          continue
+        bundles, results = [], []
+        doc = Doc(cfg)
+        try:
+          for bun in (ENUM_FIRST, copy.deepcopy(second)):
+            results.append(run_bundle(doc, bun))
+            bundles.append(bun)
+        except BundleFailed:
+          ctx.bump('enum_bundle_failed')
+        out.append((cfg, bundles, results))
+  ctx.extra['exhaustive'] = True
+  ctx.extra['exhaustive_space'] = ('7 configurations x every bundle of 1 or 2 actions from an alphabet of %d actions '
+                                   'on a fixed two-row table' % len(ALPHABET))
+  return out
+
+
 def histories(ctx):
   if getattr(ctx, '_c15', None) is None:
     ctx._c15 = []
-    n = ctx.n(70, 1200)
+    n = ctx.n(50, 800)
     cfgs = list(CFGS)
     for i in range(n):
       cfg = cfgs[i] if i < len(cfgs) else gen_cfg(ctx.rng)
       bundles, results = make_history(ctx.rng, cfg, ctx.rng.choice([6, 10, 14]), ctx)
       ctx._c15.append((cfg, bundles, results))
+    if ctx.tier == 'thorough':
+      ctx._c15.extend(enumerated(ctx))
   return ctx._c15
 
 
@@ -686,8 +738,8 @@ ASSUMPTIONS = ['kernel scope: one table, int cell values, formula columns readin
 TECHNIQUE = 'Coq proof over a hand-written mechanism model + declarative spec; model tied by vm_compute replay of real engine histories; Python oracle search'
 LEVEL_TEXT = ('Kernel-checked: for every configuration, table and bundle of user actions the mechanism model fires the '
               'trigger formula for a row whenever the property requires it and only when it allows it, provided none '
-              'of four named transitions occurs; each of the four is refuted by a vm_compute witness that also fails '
-              'on the real engine (registered known findings).')
+              'of five named transitions occurs; each of the five is refuted by a vm_compute witness that also fails '
+              'on the real engine (registered known findings); schema-only bundles never fire, unconditionally.')
 LEVEL_NOTE = ('Strength: kernel. Trusted: Coq kernel; the hand-written model (validated per run against '
               'Engine._recompute_one_cell on random histories). Partial: C15_trigger_fires_iff holds only under '
-              '[regular]; the full statement is refuted four ways.')
+              '[regular]; the full statement is refuted five ways (one root cause each).')
